@@ -21,7 +21,14 @@ TRUSTED_BASE = C01.TRUSTED_BASE
 ASSUMPTIONS = ["a method-level finding is identified by the line of the method's NAME (the statement does not fix it; the full pass records that line since 00fa4f2)", "helpers contain only assertion or plain calls; an assertion is a call whose lower-cased name starts with one of "
                "assert/should/check/maynotbe/is/spec/verify (the documented list)"]
 
-def gen_test_class(rng, pkg, name, path, foreign=None):
+# assertion names as libraries spell them: the documented prefixes match whatever the capitalisation
+ASSERT_NAMES = ["assertTrue", "assertTrue", "assertTrue", "mayNotBeEmpty", "AssertValid", "VerifyAll", "shouldHold", "checkState",
+                "isValid", "specHolds", "verifyZeroInteractions"]
+# annotations that keep company with @Test / @Ignore
+COMPANY = [lambda: J.Annotation("DisplayName", value=['"x"']), lambda: J.Annotation("Tag", value=['"slow"']),
+           lambda: J.Annotation("Deprecated"), lambda: J.Annotation("SuppressWarnings", value=['"unchecked"'])]
+
+def gen_test_class(rng, pkg, name, path, foreign=None, dup_bias=False):
     imports = [J.Import("org.junit.Test"), J.Import("org.junit.Ignore")]
     static_assert = rng.random() < 0.7
     if static_assert:
@@ -37,10 +44,10 @@ def gen_test_class(rng, pkg, name, path, foreign=None):
         if rng.random() < 0.5: body.append(J.ExprS(J.Call(J.Name("repo"), "load", [])))
         hm = J.Method("helper%d" % h, None, [], body, ["private"])
         helpers.append((hm, has_assert))
-    nt = rng.randint(1, 5)
+    nt = rng.randint(1, 5) if not dup_bias else rng.randint(7, 9)
     tests = []
     for i in range(nt):
-        r = rng.random()
+        r = rng.random() if not dup_bias else 0.1
         mods = []
         test = ignore = False
         if r < 0.55: mods = [J.Annotation("Test")]; test = True
@@ -48,9 +55,13 @@ def gen_test_class(rng, pkg, name, path, foreign=None):
         elif r < 0.75: mods = [J.Annotation("Test"), J.Annotation("Ignore", value=['"later"'])]; test = ignore = True
         elif r < 0.85: mods = [J.Annotation("Ignore"), J.Annotation("Test")]; test = ignore = True
         else: mods = []          # plain method of the test class
+        if mods and rng.random() < 0.25:
+            # another annotation before, between or after the markers
+            mods.insert(rng.randint(0, len(mods)), rng.choice(COMPANY)())
         if rng.random() < 0.8: mods.append("public")
         atoms, stmts = [], []
-        shape = rng.random()
+        shape = rng.random() if not dup_bias else 0.3
+        aname = rng.choice(ASSERT_NAMES)
         def add(kind):
             if kind == "print":
                 fn = rng.choice(["println", "print", "printf"])
@@ -63,7 +74,7 @@ def gen_test_class(rng, pkg, name, path, foreign=None):
                 else:
                     stmts.append(("redundant_plain", J.ExprS(J.Call(J.Name("repo"), "put", [J.Name("k"), J.Name("k")]))))
             elif kind == "assert":
-                stmts.append(("assert", J.ExprS(J.Call(None, "assertTrue", [J.Call(J.Name("repo"), "ok", [])]))))
+                stmts.append(("assert:" + aname, J.ExprS(J.Call(None, aname, [J.Call(J.Name("repo"), "ok", [])]))))
             elif kind == "call":
                 stmts.append(("call", J.ExprS(J.Call(J.Name("repo"), "save", [J.Lit("1")]))))
             elif kind == "new":
@@ -79,7 +90,7 @@ def gen_test_class(rng, pkg, name, path, foreign=None):
         elif shape < 0.24:
             add(rng.choice(["call", "assert", "print", "new", "helper"]))   # exactly one
         elif shape < 0.4:
-            for _ in range(rng.randint(3, 7)): add("assert")               # duplicate-assert boundary
+            for _ in range(rng.randint(3, 7) if not dup_bias else rng.randint(5, 6)): add("assert")               # duplicate-assert boundary
             if rng.random() < 0.5: add("call")
         elif shape < 0.52 and len(helpers) >= 2:
             # no direct assertion: several helpers of the class, asserting and plain ones in any order
@@ -109,8 +120,8 @@ def gen_test_class(rng, pkg, name, path, foreign=None):
             elif kind == "sleep": atoms.append(["sleep", str(line)])
             elif kind == "redundant_assert": atoms.append(["redundant", "1", "assertEquals"])
             elif kind == "redundant_plain": atoms.append(["redundant", "0", "put"])
-            elif kind == "assert":
-                atoms.append(["assert", "assertTrue"]); atoms.append(["call"])      # assertTrue(repo.ok()) holds a second call
+            elif kind.startswith("assert:"):
+                atoms.append(["assert", kind[7:]]); atoms.append(["call"])      # assertTrue(repo.ok()) holds a second call
             elif kind == "call": atoms.append(["call"])
             elif kind == "new": atoms.append(["new"])
             elif kind == "helper_assert": atoms.append(["helper", "1"])
@@ -118,7 +129,7 @@ def gen_test_class(rng, pkg, name, path, foreign=None):
         xm.append([m.name, str(u.toks[m.name_tok].line), "1" if test else "0", "1" if ignore else "0", atoms])
     return u, xm
 
-def gen(rng):
+def gen(rng, dup_bias=False):
     maven = rng.random() < 0.5
     units, exps = [], []
     n = rng.randint(1, 4)
@@ -174,7 +185,7 @@ def gen(rng):
             name = "Prod%d" % i
             path = ("src/main/java/" if maven else "") + pkg.replace(".", "/") + "/" + name + ".java"
             is_test = False
-        u, xm = gen_test_class(rng, pkg, name, path, foreign if is_test else None)
+        u, xm = gen_test_class(rng, pkg, name, path, foreign if is_test else None, dup_bias=dup_bias and is_test)
         units.append(u); exps.append([path, "1" if is_test else "0", xm])
     extra = []
     if maven and rng.random() < 0.5:
